@@ -195,6 +195,10 @@ class Harness:
     def canon(self, w):
         return self.cn(w.model, list(w.objs.values()))
 
+    def refstate(self, w):
+        return (tuple(k for _, _, k in w.reg), tuple(k for _, _, k in sorted(w.reg, key=lambda r: (-r[0], r[1]))),
+                w.running, w.t)
+
     def outcome(self, w):
         return w.last
 
